@@ -220,18 +220,22 @@ def h19c_add_sheet(c1, rename, c3, u3, explicit, c4, u4, pre=0):
     assert doc.sheets[after[nb]] is doc.sheets[nb]
 
 
+# a few non-ASCII letters whose lower / upper / case-folded forms differ from each other: ß ſ Σ ς
+SPECIAL = [(0xDF, 0xDF), (0x17F, 0x17F), (0x3A3, 0x3A3), (0x3C2, 0x3C2)]
 DIGITISH = [(0x30, 0x39), (0x41, 0x5A), (0x61, 0x7A)]
+DIGITISH_W = DIGITISH + SPECIAL          # for the name that exists first and the name that is added
 ASCII2 = [(0x20, 0x7E)]
+ASCII2_W = ASCII2 + SPECIAL
 
 HARNESSES = [
     Harness("H19a", h19a_index, lambda tier: dict(key=IntDom(), n=Cases([0, 1, 2, 3, 4] if tier == "quick" else [0, 1, 2, 3, 4, 5, 6, 7, 8])),
             bounds="key: every Python int (unbounded Int); n = 0..4 items (quick) / 0..8 (thorough)",
             outside=["names and order after save/reopen (protobuf/zip I/O)"]),
     Harness("H19b", h19b_name,
-            lambda tier: dict(n0=StrDom(1 if tier == "quick" else 2, ASCII2), n1=StrDom(1 if tier == "quick" else 2, ASCII2),
-                              n2=StrDom(1, ASCII2), q=StrDom(1 if tier == "quick" else 2, ASCII2)),
-            bounds="3 items; names and query of 1 (quick) / 2 (thorough) printable-ASCII characters, all symbolic",
-            outside=["names longer than 2 characters; non-ASCII names (case mapping tables)"]),
+            lambda tier: dict(n0=StrDom(1 if tier == "quick" else 2, ASCII2_W), n1=StrDom(1 if tier == "quick" else 2, ASCII2),
+                              n2=StrDom(1, ASCII2), q=StrDom(1 if tier == "quick" else 2, ASCII2_W)),
+            bounds="3 items; names and query of 1 (quick) / 2 (thorough) characters (printable ASCII or one of ß ſ Σ ς), all symbolic",
+            outside=["names longer than 2 characters; other non-ASCII letters"]),
 ]
 HARNESSES += [
     Harness("H19c-table", h19c_add_table,
